@@ -28,6 +28,10 @@ const PROPS: &[P] = &[
     P { key: "fn1", type_key: "fn1", ty: "() => void", fn_typed: true },
     P { key: "fn2", type_key: "\"fn2\"", ty: "Function", fn_typed: true },
     P { key: "7", type_key: "7", ty: "number", fn_typed: false },
+    // Function is only one member of the runtime type set: Vue still treats a function default as
+    // a factory (`opt.type !== Function`), so the written function must stay wrapped
+    P { key: "uf1", type_key: "uf1", ty: "string | (() => string)", fn_typed: false },
+    P { key: "uf2", type_key: "uf2", ty: "(() => void) | null", fn_typed: false },
 ];
 
 fn env() -> Value {
@@ -230,7 +234,7 @@ impl Property for C18 {
         "C18"
     }
     fn rule(&self) -> String {
-        "prop types with 2-8 members (string, number, object, array, union, function-typed `() => void` and `Function`, quoted / hyphenated / numeric keys) x default objects mixing entry forms {literal, non-literal expression (1+1, [1], {a:1}, identifier, unary, template, call, undefined), function-valued default, shorthand, getter, method, async method} x key spellings {identifier, quoted, [\"literal\"], numeric, spelled differently from the type} x extra keys not in the type x the dynamic forms {default is an identifier, contains a spread, a computed identifier key, a computed expression key}. Oracle: the checker resolves each prop's default the way Vue does (a function default is called as a factory unless the prop type is Function or skipFactory is set) on the props option received by the mock defineComponent (after the mock's real mergeDefaults when that path is taken) and compares it with the value of the written expression evaluated in a reference module (functions compared by what they return and by async-ness; getters by their value; methods and dynamic entries through the same Vue rule); props without a written default must have none. non-trivial = >=2 default entries, a dynamic form, or a Function-typed prop with a default; distinct by hash(source)".into()
+        "prop types with 2-10 members (string, number, object, array, union, function-typed `() => void` and `Function`, unions that contain a function type beside another member, quoted / hyphenated / numeric keys) x default objects mixing entry forms {literal, non-literal expression (1+1, [1], {a:1}, identifier, unary, template, call, undefined), function-valued default, shorthand, getter, method, async method} x key spellings {identifier, quoted, [\"literal\"], numeric, spelled differently from the type} x extra keys not in the type x the dynamic forms {default is an identifier, contains a spread, a computed identifier key, a computed expression key}. Oracle: the checker resolves each prop's default the way Vue does (a function default is called as a factory unless the prop type is Function or skipFactory is set) on the props option received by the mock defineComponent (after the mock's real mergeDefaults when that path is taken) and compares it with the value of the written expression evaluated in a reference module (functions compared by what they return and by async-ness; getters by their value; methods and dynamic entries through the same Vue rule); props without a written default must have none. non-trivial = >=2 default entries, a dynamic form, or a Function-typed prop with a default; distinct by hash(source)".into()
     }
     fn assumptions(&self) -> Vec<String> {
         vec![
